@@ -3,6 +3,8 @@
 Streams
   c02.sub    type pairs (sigma, tau): the REAL checker's verdict on `def f(y: sigma); var x: tau = y; end`
              (checker.CheckSource in process, harness/cmd/c02) against the extracted `subtype`.
+  c02.cls    class hierarchies + narrowing by <: :> <<: :>> (lib/c02cls.py, Model/C02_Classes.v): checker's static
+             types from the typed AST vs extracted kannot (value sets), runtime class in static type, dispatch of `name`.
   c02.probe  seeded well-typed programs of the modelled core (declarations, assignment, if with narrowing,
              && || ?? and arithmetic; a share with while loops and closures). Every probe `var tK: T = e`
              carries the static type T the MODEL's checker infers for e; the real checker must accept the
@@ -830,13 +832,30 @@ def run(ctx):
         "compares the model's subtype with the real checker on generated type pairs; c02.probe runs generated programs "
         "with the real binary and compares static acceptance (probe annotations inferred by the model, one tightened "
         "annotation per program), the probe values with the reference interpreter, and membership of the observed value in "
-        "the static type. Not modelled: classes/generics/interfaces/intersection and `~` types, `is_a`/`<:` narrowing, "
-        "narrowing by && / || conditions, `==` with non-nil operands, methods, std-library return types (C28 covers "
+        "the static type. CLASSES (Model/C02_Classes.v, a separate fragment): for ALL single-inheritance class tables, "
+        "with [[C]] = instances of C or a subclass and [[exact C]] = direct instances, proved: each of the four narrowing "
+        "operators `x <: C`, `C :> x`, `x <<: C`, `C :>> x` (dispatched as narrowBinary does, then = C / exact C, else = "
+        "T & ~C / T & ~exact C) keeps the tested value inside the narrowed type in the branch taken; the same for "
+        "conditions built with ! && ||; preservation for nested if/else programs over such conditions; a receiver type "
+        "that compileCallMethod binds statically (exact C, or a class without children) only contains direct instances "
+        "of C, so the bound method is the dynamically dispatched one. The instance-of else-branch AS FOUND (T & ~C) is "
+        "refuted (C02_cls_instance_of_else_refuted) and proved sound only when no local holds an instance of a proper "
+        "subclass of an instance-of operand (C02_cls_preservation_partial). Correspondence c02.cls: generated class "
+        "hierarchies (2-3 levels, overridden `name`) and narrowing programs; the REAL checker's static type of every "
+        "probed local is read from the typed AST and compared as a value set (extracted kmem over all classes of the "
+        "program, Int, nil) with the extracted kannot; each executed probe's runtime class must be a member of the "
+        "checker's static type and `v.name` must be the override dynamic dispatch selects (extracted resolve). "
+        "Not modelled: generics/interfaces/mixins, assignment inside class-narrowed branches (narrowIsA replaces the "
+        "local's type by C without intersecting, so `var a: Bar; if a <: Foo; a = Foo(); end` is accepted and leaves a Foo "
+        "in a Bar-typed local - seen by reading, outside the stream), the real normalisation of intersections (only "
+        "value sets are compared), narrowing by `==` with non-nil operands, std-library return types (C28 covers "
         "declared-vs-actual return classes; no c02.std stream here).")
     ctx.trusted_base += [
         "Python generator/printer (program -> Elk source) and parser of `class inspect` lines (checks/C02.py)",
         "values are observed through `pr(x: any)` = `case ::Std::Value() as y then y.class.name + \" \" + y.inspect`",
         "Float values restricted to small dyadic rationals (exact in binary64); strings to [a-z]*",
+        "c02.cls: Python generator/printer of class programs (lib/c02cls.py), the conversion of the checker's types.Type "
+        "tree to the model's type syntax (harness/cmd/c02 tySx), runtime class observed through `y.class.name`",
         "the model's assignment rule additionally requires the outer chain levels to accept the assigned type (never fails on chains built by narrowing)",
     ]
     ctx.run_proof_gate()
